@@ -23,6 +23,9 @@ func TestReplay(t *testing.T) {
 		return
 	}
 	f := replayFuncs[d.Property]
+	if d.Kind == "boundary-history" {
+		f = replayHistoryC07 // the directed freelist-boundary walk is shared by several properties
+	}
 	if f == nil {
 		t.Fatalf("no replay function for property %q", d.Property)
 	}
